@@ -240,6 +240,14 @@ def run_suite(ctx, name, gen_args, timeout=1200, driver=None):
                                        "replay_cmd": "%s types" % (driver or prep["driver"])},
                       text="generated Decode ignores a oneof member: " + msg[:200])
         return []
+    if p.returncode != 0 and "VERIF-RISKY\t" in p.stderr and "VERIF-RISKY-DONE" not in p.stderr.split("VERIF-RISKY\t")[-1]:
+        # the driver died inside a call it had announced (a fatal runtime error - stack overflow, out of memory - cannot be recovered)
+        line = p.stderr.split("VERIF-RISKY\t")[-1].split("\n")[0].split("\t")
+        fatal = [l for l in p.stderr.split("\n") if l.startswith("fatal error") or "stack exceeds" in l][:2]
+        ctx.violation("crash", {"what": "%s of %s kills the process (%s) on: %s" % (line[0], line[1], "; ".join(fatal)[:200], line[2]),
+                                "replay_cmd": "%s %s" % (driver or prep["driver"], " ".join(str(a) for a in gen_args))},
+                      text="%s of %s kills the process on %s" % (line[0], line[1], line[2][:120]))
+        return []
     if p.returncode != 0:
         raise RuntimeError("driver %s failed: %s" % (gen_args, p.stderr[-2000:]))
     menv = dict(os.environ)
